@@ -59,13 +59,17 @@ class NestedAsyncState(NestedState, AsyncState):
 
     async def scoped_enter(self, event_data, scope=None):
         self._scope = scope or []
-        await self.enter(event_data)
-        self._scope = []
+        try:
+            await self.enter(event_data)
+        finally:
+            self._scope = []
 
     async def scoped_exit(self, event_data, scope=None):
         self._scope = scope or []
-        await self.exit(event_data)
-        self._scope = []
+        try:
+            await self.exit(event_data)
+        finally:
+            self._scope = []
 
 
 class AsyncCondition(Condition):
